@@ -285,17 +285,25 @@ def Arguments.nextMemoryLocation (it : Arguments) : AR MemLoc := it.nextMemoryLo
 def Arguments.nextMemoryLocationOrDefault (it : Arguments) : AR MemLoc :=
   it.nextMemoryLocationOr (some (.pcOffset 0))
 
-/-- `Arguments::next_location` -/
-def Arguments.nextLocation (it : Arguments) : AR Loc :=
+/-- `Arguments::next_location_or` (`default = none` stands for `Err(MissingArgument)`). -/
+def Arguments.nextLocationOr (it : Arguments) (default : Option Loc) : AR Loc :=
   match it.nextArgumentStr with
   | .panic s => .panic s
-  | .none _ => .err
+  | .none it' => match default with
+    | some d => .ok d it'
+    | none => .err
   | .some argument it' =>
     match tryParseLoc argument with
     | .ok l => .ok l it'
     | .none => .err
     | .err => .err
     | .panic s => .panic s
+
+/-- `Arguments::next_location` -/
+def Arguments.nextLocation (it : Arguments) : AR Loc := it.nextLocationOr none
+/-- `Arguments::next_location_or_default`: the program counter, `^0`. -/
+def Arguments.nextLocationOrDefault (it : Arguments) : AR Loc :=
+  it.nextLocationOr (some (.mem (.pcOffset 0)))
 
 /-! ## `name.rs` -/
 
